@@ -33,7 +33,9 @@ def run(prog, rep, tier='quick', config='default'):
         if cand.name.startswith(MOD) and cand.kind in ('Fn', 'AssocFn') and 'testlib' not in cand.name:
             sig = prog.sigs('acb').get(cand.local_name)
             body = [g for g in prog.closures_of(cand)] + [cand]
-            if any(x.short in ('contains_key', 'get') and re.search(r'HashMap<u32, std::collections::HashMap<time::Date', g.ty.get(x.arg_local(0), '')) for g in body for x in g.calls):
+            if 'Option<fx::model::DailyRate>' not in (cand.ty.get(0) or ''):
+                continue      # the exact-date look-up answers "a rate, or none published"
+            if any(x.short in ('contains_key', 'get', 'index') and re.search(r'HashMap<u32, std::collections::HashMap<time::Date', g.ty.get(x.arg_local(0), '')) for g in body for x in g.calls):
                 exact = cand
     exact = exact or prog.fn(MOD + 'RateLoader::get_exact_usd_cad_rate')
     if not rep.anchor('RateLoader::get_effective_usd_cad_rate', eff) or not rep.anchor('RateLoader::get_exact_usd_cad_rate', exact):
@@ -95,6 +97,29 @@ def run(prog, rep, tier='quick', config='default'):
                     rep.violation('R12b', k, where=fn.where(s), fn=fn.name,
                                   detail='a rate read from the per-year map is returned without the is_zero() test: the zero "looked up, none published" '
                                          'placeholder could be used as an exchange rate')
+        # the same decision written as `(!rate.is_zero()).then(|| rate.clone())` / `.then_some(rate)`
+        for c in fn.calls:
+            if not re.search(r'bool>::(then|then_some)$', c.callee) or len(c.args) < 2 or \
+                    not re.search(r'Option<&?fx::model::DailyRate>', fn.ty.get(c.dst['l'], '') if c.dst else ''):
+                continue
+            MAPTY = r'HashMap<time::Date, fx::model::DailyRate'
+            is_get = lambda f, x: x.short in ('get', 'index', 'remove', 'get_mut') and re.search(MAPTY, f.ty.get(x.arg_local(0), ''))
+            val = mir.provenance(fn, c.args[1], follow_all_call_args=True)
+            gets = [x for x in val.calls if is_get(fn, x)]
+            if not gets:
+                continue
+            n_some += 1
+            ordn += 1
+            k = '%s|map-rate-returned#%d' % (fn.name, ordn)
+            d = mir.provenance(fn, c.args[0], follow_all_call_args=True)
+            nots = [op for op, _ in d.unops if op == 'Not']
+            if any(x.callee.endswith('Decimal::is_zero') for x in d.calls) and any(f == 'foreign_to_local_rate' for of, f in d.fields) \
+                    and set(gets) & set(d.calls) and len(nots) == 1 and not d.binops:
+                rep.ok('R12b', k, where=c.where(), fn=fn.name, detail='a rate from the per-year map is wrapped by bool::then on `!is_zero(rate)`')
+            else:
+                rep.violation('R12b', k, where=c.where(), fn=fn.name,
+                              detail='a rate read from the per-year map is returned by bool::then on a condition that is not `!rate.is_zero()`: the zero '
+                                     '"looked up, none published" placeholder could be used as an exchange rate')
     if n_some == 0:
         rep.violation('R12b', 'anchor-lost:map-rate-return', detail='anchor lost: no site returns a rate taken from the per-year rate map')
 
@@ -124,6 +149,21 @@ def run(prog, rep, tier='quick', config='default'):
                 rep.violation('R12e', k, where=c.where(), fn=fn.name,
                               detail='the per-day rate map is modified (%s) with a value that is not an element of a loaded year: a derived rate stored under '
                                      'another date would later be taken for a published rate of that date (and escape the 7-day limit)' % c.short)
+        # the same construction written as `rates.iter().map(|r| (r.date, r.clone())).collect()`
+        for c in fn.calls:
+            if c.short not in ('collect', 'from_iter') or not c.dst or \
+                    not re.search(r'^std::collections::HashMap<time::Date, fx::model::DailyRate', fn.ty.get(c.dst['l'], '')):
+                continue
+            n_mut += 1
+            k = '%s|day-map-%s' % (fn.name, c.short)
+            src = mir.provenance(fn, c.args[0], follow_all_call_args=True)
+            from_vec = any(re.search(r'Vec<fx::model::DailyRate>|\[fx::model::DailyRate\]', fn.ty.get(p_, '')) for p_ in src.params)
+            fresh = [x for x in src.calls if x.short in ('chain', 'once', 'repeat', 'zip', 'flat_map', 'successors', 'from_fn')]
+            if from_vec and not fresh:
+                rep.ok('R12e', k, where=c.where(), fn=fn.name, detail='per-day map collected from a loaded year of rates')
+            else:
+                rep.violation('R12e', k, where=c.where(), fn=fn.name,
+                              detail='the per-day rate map is collected from something other than the elements of a loaded year')
     if n_mut == 0:
         rep.violation('R12e', 'anchor-lost:day-map-construction', detail='anchor lost: construction of the per-day rate map')
 
@@ -148,17 +188,16 @@ def run(prog, rep, tier='quick', config='default'):
             for s in b['stmts']:
                 if s['r']['rv'] == 'agg' and s['r']['kind'].startswith('adt:std::ops::Range') and s['dst']['l'] in org.locals:
                     vals = [o.get('v', '?') for o in s['r']['ops']]
-                    rng = (s['r']['kind'], vals, s)
+                    rng = (s['r']['kind'], vals, s, s['r']['ops'])
         for x in org.calls:
             if x.callee.endswith('RangeInclusive::<Idx>::new'):
-                rng = ('RangeInclusive', [a.get('v', '?') for a in x.args], x.t)
-        iters = None
+                rng = ('RangeInclusive', [a.get('v', '?') for a in x.args], x.t, x.args)
+        iters = lo = hi = None
         if rng:
-            try:
-                lo, hi = [int(re.match(r'-?\d+', v).group(0)) for v in rng[1][:2]]
+            from props import c02
+            lo, hi = [c02.const_int(prog, fn, o) for o in rng[3][:2]]      # literals, named constants, constant arithmetic
+            if lo is not None and hi is not None:
                 iters = hi - lo + (1 if 'Inclusive' in rng[0] else 0)
-            except Exception:
-                iters = None
         if iters == 7:
             rep.ok('R12c', base + '|seven-iterations', where=nc.where(), fn=fn.name, detail='look-back range %s = 7 iterations' % (rng[1][:2],))
         else:
@@ -169,7 +208,18 @@ def run(prog, rep, tier='quick', config='default'):
         dorg = mir.provenance(fn, c.args[1], follow_all_call_args=True)
         steps = [x for x in dorg.calls if re.search(r'time::Date::(saturating_sub|checked_sub)$|ops::Sub::sub$|previous_day$', x.callee + ' ' + x.decl) and x.bb in body]
         days = [x for x in dorg.calls if x.callee.endswith('time::Duration::days')]
-        if steps and (days and all(a.get('v', '').startswith('1_') for x in days for a in x.args) or any(x.callee.endswith('previous_day') for x in steps)):
+        # second form: `start - Duration::days(k)` for the loop counter k of `1..=7`, start not changed by the loop
+        counter_form = False
+        if len(days) == 1 and len(steps) == 1 and rng and lo == 1 and hi is not None:
+            ko = mir.provenance(fn, days[0].args[0])
+            bo = mir.provenance(fn, steps[0].args[0])
+            body_defs = {l for l in bo.locals for (bb_, i_, k_, n_) in fn.defs.get(l, []) if bb_ in body and l in fn.user}
+            if nc in ko.calls and not ko.binops and not body_defs and nc not in bo.calls:
+                counter_form = True
+        if counter_form:
+            rep.ok('R12c', base + '|one-day-steps', where=steps[0].where(), fn=fn.name,
+                   detail='the queried date is the start date minus k days for the loop counter k = %s..%s' % (lo, hi))
+        elif steps and (days and all(a.get('v', '').startswith('1_') for x in days for a in x.args) or any(x.callee.endswith('previous_day') for x in steps)):
             rep.ok('R12c', base + '|one-day-steps', where=steps[0].where(), fn=fn.name, detail='the queried date is stepped back by Duration::days(1) inside the loop')
         else:
             rep.violation('R12c', base + '|one-day-steps', where=c.where(), fn=fn.name,
